@@ -350,6 +350,13 @@ func (e *Engine) callOpaque(st *State, instr ssa.Instruction, call *ssa.CallComm
 			env := e.envFor(st, st.top())
 			env.useVars = true
 			env.old = st.frames[0].entry
+			// inside a nested closure: the parameters of the function under
+			// verification stay nameable
+			for n, v := range st.frames[0].params {
+				if _, shadow := env.names[n]; !shadow {
+					env.names[n] = v
+				}
+			}
 			for i, a := range args {
 				env.names[fmt.Sprintf("a%d", i)] = a
 			}
@@ -370,6 +377,12 @@ func (e *Engine) callOpaque(st *State, instr ssa.Instruction, call *ssa.CallComm
 		e.havocAllKeepPrivate(st)
 	}
 	res := e.freshResults(st, "fv", sig)
+	if pn := fnParamName(call.Value); pn != "" && len(st.frames) > 0 && st.frames[0].contract != nil {
+		if g := st.frames[0].contract.FnParamCounts[pn]; g != "" {
+			// specification-only invocation counter
+			e.ghostSet(st, g, sx("+", e.ghostGet(st, g).T, "1"))
+		}
+	}
 	// `fnparam <name> ensures <expr>`: what the verified function assumes
 	// about a function-typed parameter (listed as an assumption)
 	if pn := fnParamName(call.Value); pn != "" && len(st.frames) > 0 && st.frames[0].contract != nil {
